@@ -3,6 +3,7 @@ package c08
 import (
 	"bytes"
 	"encoding/binary"
+	"encoding/hex"
 	"encoding/json"
 	"fmt"
 	"math"
@@ -324,6 +325,18 @@ func fuzzSeeds() [][]byte {
 			add(specOf([]string{"DCTDecode"}, nil, editJPEGHeader(j, []jpegEdit{{jeNs, 0, 1}}), nil, 0))
 			break
 		}
+	}
+	// arithmetic symbol dictionaries refining single symbols: the stream of
+	// seeded/C08-N/demo_test.go and variants with earlier, own, next,
+	// last-slot and out-of-capacity references
+	if demo, err := hex.DecodeString("0000000030000100000013" + "00000020000000200000000000000000010000" +
+		"00000001000001" + "0000001c" + "000003fffdff02fefefe0000000100000001" + "4a7c8766f4d110bfffac" +
+		"0000000200200101" + "00000012" + "140203ff0000000300000002" + "4a7edcafffac"); err == nil {
+		add(specOf([]string{"JBIG2Decode"}, nil, demo, nil, 0x40))
+	}
+	for _, v := range [][5]int{{1, 2, 0, 0, 0}, {1, 2, 0, 1, 0}, {1, 2, 0, 2, 0}, {1, 2, 1, 2, 0}, {2, 5, 3, 6, 1}, {2, 5, 3, 5, 0}, {2, 5, 1, 6, 0}, {3, 6, 0, 8, 0}, {3, 5, 2, 7, -1}} {
+		b, _, _ := refAggDictStream(v[0], v[1], v[2], v[3], v[4])
+		add(specOf([]string{"JBIG2Decode"}, nil, b, nil, 0x40))
 	}
 	// halftone regions over pattern dictionaries of 1, 3, 4, 5 and 6 patterns
 	for i, np := range []int{1, 3, 3, 4, 5, 6} {
